@@ -924,7 +924,11 @@ func replaceRange(line *spanLine, x int, n int, insert Span, mode TextReadMode) 
 
 	// If we're splitting in the right cell of a wide character at the start,
 	// we should insert after the wide character rather than overwriting it
-	if splitWideAtStart.Width > 0 {
+	if splitWideAtStart.Width > 0 && insert.Width == 0 && x+n >= totalWidth {
+		// Cutting the rest of the line away through a wide character: it cannot
+		// stay, so blank the cells it occupied before the cut.
+		insert = Span{Style: splitWideAtStart.Style, Rune: ' ', Width: startOffset - left.Width}
+	} else if splitWideAtStart.Width > 0 {
 		// splitSpan gave us the wide character - include it in the left part
 		// and insert after it
 		if hasLeft {
